@@ -121,15 +121,27 @@ def ramsey_cases(tier):
     phis = [round(-7.0 + 14.0 * i / (n - 1), 6) for i in range(n)] + [0.0, round(math.pi, 9), round(2 * math.pi, 9), -3.0, 9.5]
     chans = [("rydberg_global", "ground-rydberg", None), ("rydberg_local", "ground-rydberg", "q0"),
              ("raman_global", "digital", None), ("raman_local", "digital", "q0"), ("mw_global", "XY", None)]
-    return [(ch, b, t, phi, via) for ch, b, t in chans for phi in phis for via in ("shift", "post")]
+    out = [(ch, b, t, phi, via) for ch, b, t in chans for phi in phis for via in ("shift", "post")]
+    # something between the two pulses (plain delay, user-built zero-amplitude hold shorter / longer than the phase-jump time)
+    # and the second pulse added with either protocol, on channels with and without a phase-jump time
+    some = [phis[i] for i in range(0, len(phis), max(1, len(phis) // 8))]
+    for ch, b, t in chans[:2] + chans[4:]:
+        for phi in some:
+            for via in ("shift", "post"):
+                for gap in ("delay-16", "hold-16", "hold-100", "hold-400"):
+                    for proto in ("min-delay", "no-delay"):
+                        for pjt in (None, 200):
+                            out.append((ch, b, t, phi, via, gap, proto, pjt))
+    return out
 
 
 def ramsey(case):
     from pulser import Pulse, Register, Sequence
     from pulser_simulation import QutipEmulator
 
-    ch, basis, tgt, phi, via = case
-    w = World(dict(name="ramsey"))
+    ch, basis, tgt, phi, via = case[:5]
+    gap, proto, pjt = case[5:] if len(case) > 5 else (None, "min-delay", None)
+    w = World(dict(name="ramsey", pjt=pjt))
     reg = Register({"q0": (0.0, 0.0)})
     seq = Sequence(reg, w.device)
     seq.declare_channel("c", ch, initial_target=tgt)
@@ -137,7 +149,11 @@ def ramsey(case):
     seq.add(half, "c")
     if via == "shift":
         seq.phase_shift(phi, "q0", basis=basis)
-    seq.add(Pulse.ConstantPulse(250, 2 * math.pi, 0.0, 0.0), "c")
+    if gap and gap.startswith("delay"):
+        seq.delay(int(gap.split("-")[1]), "c")
+    elif gap:
+        seq.add(Pulse.ConstantPulse(int(gap.split("-")[1]), 0.0, 0.0, 0.0), "c", "no-delay")
+    seq.add(Pulse.ConstantPulse(250, 2 * math.pi, 0.0, 0.0), "c", proto)
     sim = QutipEmulator.from_sequence(seq)
     st = sim.run().get_final_state().full().ravel()
     # index of the state reached from the initial one: r of (r,g); h of (g,h); d of (u,d) (initial state all-u)
